@@ -163,6 +163,20 @@ func (sn *Snap) CheckShortest() []Finding {
 				out = append(out, Finding{"C18.dist", "best cost differs from hop distance at the fixed point",
 					fmt.Sprintf("r%d -> r%d: RIB cost %d, hop distance %d (%s)", i, d, e.Lowest1, h, s.Mode())})
 			}
+			// the advertisement must name the chosen next hop (receivers base poison reverse on it)
+			for _, a := range sn.raw[i].Entries {
+				if a.Destination == nil || s.IdxH(a.Destination.Name.Hash()) != d {
+					continue
+				}
+				if a.NextHop == nil || len(a.NextHop.Name) == 0 || a.NextHop.Name.Hash() != e.NextHop1 {
+					got := "(empty)"
+					if a.NextHop != nil && len(a.NextHop.Name) > 0 {
+						got = a.NextHop.Name.String()
+					}
+					out = append(out, Finding{"C18.dist", "advertisement does not name the chosen next hop at the fixed point",
+						fmt.Sprintf("r%d advertises r%d with next hop %s, its RIB chose %s (%s)", i, d, got, s.shortH(e.NextHop1), s.Mode())})
+				}
+			}
 			nh := s.IdxH(e.NextHop1)
 			if nh < 0 || !s.LinkLive(i, nh) || dist[nh][d] != h-1 {
 				out = append(out, Finding{"C18.dist", "chosen next hop is not on a shortest path at the fixed point",
